@@ -158,8 +158,8 @@ class Rig:
         del self.sent[:]
         del self.entries[:]
         e0 = len(vt.errors)
-        for f in frames:
-            dev.peer.send(f)
+        for (src, f) in norm(frames):
+            dev.peers[src].send(f)
         ok1 = vt.run(until=vt.now + 0.001, max_loops=20000)
         per = []
         for i in range(len(frames)):
@@ -176,6 +176,11 @@ class Rig:
                 "delivered": self.n, "errors": [list(e) for e in vt.errors[e0:][:3]],
                 "dcc": dcc_code(dev.smap.dccEnableDisable),
                 "iam": bool(getattr(dev.app.deviceInfoCache, "cache", None))}
+
+
+def norm(frames):
+    """a batch as [(sending station, octets)]"""
+    return [f if isinstance(f, tuple) else (C.PEER, f) for f in frames]
 
 
 def mask(octets):
@@ -340,6 +345,58 @@ def shapes(ctx, rng, T):
         f = cpt[:-1] + bytes([n])
         out.append(([f], "helper/%d" % n))
         out.append(([f, T["rp"]], "helper/%d+valid" % n))
+    # 10. hostile segment acks during a segmented answer of many segments (rpm-big under a 50-octet
+    #     maximum: 7 segments): after a normal first ack, acks with window 0 / 128 / 255, sequence numbers
+    #     in and out of the window, nak, wrong server flag — then silence.  After quiescence nothing may be
+    #     left, and a request with the SAME invoke id must be answered (kept step on the same device).
+    big = T["rpm-big"][:2] + cr_hdr(45, 14, sa=True, maxsegs=0, maxresp=0) + T["rpm-big"][6:]
+    follow = T["rp"][:4] + bytes([45]) + T["rp"][5:]
+    hostile = [(s_, w_, n_, v_) for w_ in (0, 128, 255) for s_ in (0, 1, 2, 3, 6, 7, 200) for (n_, v_) in ((False, False),)]
+    hostile += [(s_, w_, True, False) for s_ in (0, 2, 200) for w_ in (0, 2, 255)]
+    hostile += [(s_, w_, False, True) for s_ in (0, 2) for w_ in (0, 2)]
+    for first in ((0, 2), (0, 1), (0, 4)):
+        for (s_, w_, n_, v_) in hostile:
+            if first != (0, 2) and not (w_ == 0 or n_):
+                continue
+            out.append(([big, segack(45, *first), segack(45, s_, w_, nak=n_, srv=v_)], "hostile/w%d" % w_))
+            out.append(([follow], "followup/hostile-w%d" % w_, True))
+    for w_ in (0, 128, 255):
+        out.append(([big, segack(45, 0, 2), segack(45, 2, 2), segack(45, 4, w_), segack(45, 4, w_)], "hostile/late-w%d" % w_))
+        out.append(([follow], "followup/hostile-late-w%d" % w_, True))
+        out.append(([big, segack(45, 0, w_)], "hostile/first-w%d" % w_))
+        out.append(([follow], "followup/hostile-first-w%d" % w_, True))
+    # 11. routed traffic through DIFFERENT link stations: junk carrying an SNET from station X, then a valid
+    #     request from that network delivered by the real router R (kept step, and in the same instant);
+    #     the reply must go to the station that delivered the request, DNET/DADR = its SNET/SADR
+    rpv = T["rp"]
+    X, R, R2 = 11, 12, 10
+    junk = [b"", b"\x00", b"\xff\xff", rp[:3], b"\x20\x01\x0c", b"\x30\x01\x0c\x00", b"\x10\x08", b"\x40\x01\x00\x02"]
+    for net in (5, 300):
+        for sa_ in (b"\x07", b"\x01\x02\x03\x04\x05\x06"):
+            valid = C.routed(rpv[:4] + bytes([46]) + rpv[5:], net, sa_)
+            valid2 = C.routed(T["rp-index"][:4] + bytes([47]) + T["rp-index"][5:], net, sa_)
+            for jk in junk:
+                g = bytes([1, 0x08]) + bytes([net >> 8, net & 255, len(sa_)]) + sa_ + jk
+                out.append(([(X, g)], "routed/junk"))
+                out.append(([(R, valid)], "routed/valid-after-junk", True))
+                out.append(([(R2, valid2)], "routed/valid-other-router", True))
+                out.append(([(X, g), (R, valid)], "routed/junk+valid"))
+                out.append(([(R, valid), (X, g), (R, valid2)], "routed/valid+junk+valid"))
+            # corrupted copies of the routed request itself from X, and network messages carrying the SNET
+            for pos in (len(valid) - 1, len(valid) - 3, 8 + len(sa_)):
+                c = bytearray(valid[:4] + valid[4:])
+                c[pos] ^= 0xFF
+                out.append(([(X, bytes(c)[:pos + 1])], "routed/corrupt"))
+                out.append(([(R, valid)], "routed/valid-after-corrupt", True))
+            m = bytes([1, 0x88]) + bytes([net >> 8, net & 255, len(sa_)]) + sa_ + b"\x01" + bytes([net >> 8, net & 255])
+            out.append(([(X, m)], "routed/netmsg"))
+            out.append(([(R, valid)], "routed/valid-after-netmsg", True))
+            out.append(([(X, bytes([1, 0x80, 0x01, net >> 8, net & 255]))], "routed/iamrouter"))
+            out.append(([(R, valid)], "routed/valid-after-iamrouter", True))
+            out.append(([(R, valid), (R2, valid2), (X, valid[:4] + valid[4:-2])], "routed/three-stations"))
+            # a segmented answer to a routed client: retransmissions go to the router as well
+            bigr = C.routed(big, net, sa_)
+            out.append(([(X, bytes([1, 0x08]) + bytes([net >> 8, net & 255, len(sa_)]) + sa_), (R, bigr)], "routed/segresp"))
     # 9. DeviceCommunicationControl: disable (with and without duration), then traffic
     dcc_dis = T["dcc"][:6] + bytes.fromhex("0901") + bytes.fromhex("1901")
     dcc_dis_forever = T["dcc"][:6] + bytes.fromhex("1901")
@@ -402,32 +459,43 @@ def histories(ctx, rng, T, n):
 # ------------------------------------------------------------------ one shard
 
 def shard(ctx, spec):
-    stream, names = spec
+    stream, names = spec[0], spec[1]
+    model_ok = spec[2] if len(spec) > 2 else True
     Device = C.build()
     T = C.templates()
     rng = ctx.sub_rng("c10/%s/%s" % (stream, ",".join(names)))
     if stream == "shapes":
-        bl = [(fr, lab, None) for (fr, lab) in shapes(ctx, rng, T)]
+        bl = [(x[0], x[1], None, len(x) > 2 and x[2]) for x in shapes(ctx, rng, T)]
         if names != ["all"]:
+            # split into shards at scenario boundaries (a kept step stays with its predecessor)
             k, n = int(names[0]), int(names[1])
-            bl = bl[k::n]
+            groups = []
+            for b in bl:
+                if b[3] and groups:
+                    groups[-1].append(b)
+                else:
+                    groups.append([b])
+            bl = [b for g in groups[k::n] for b in g]
     elif stream == "corpus":
-        bl = corpus_batches()
+        bl = [b + (False,) for b in corpus_batches()]
     elif stream == "history":
-        bl = [(fr, lab, None) for (fr, lab) in histories(ctx, rng, T, 150 if ctx.quick else 12000)]
+        bl = [(fr, lab, None, False) for (fr, lab) in histories(ctx, rng, T, 150 if ctx.quick else 12000)]
     else:
-        bl = [(fr, lab, pos) for (fr, lab, pos, _v) in P.batches(ctx, rng, stream, names, T)]
-    drv = core.Driver("drv_c10")
+        bl = [(fr, lab, pos, False) for (fr, lab, pos, _v) in P.batches(ctx, rng, stream, names, T)]
     reqs = []
-    plan = []           # per batch: (frames, label, pos, record, index of the first model request, fresh)
+    plan = []           # per batch: (frames, label, pos, record, index of the first model request, earlier steps)
     rig = None
     used = 0
-    for frames, label, pos in bl:
-        fresh = rig is None or used >= 10
-        if fresh:
-            rig = Rig(Device)
-            used = 0
-            reqs.append({"op": "reset", "cfg": rig.cfg()})
+    dirty = False
+    past = []
+    for frames, label, pos, keep in bl:
+        frames = norm(frames)
+        if not (keep and rig is not None):
+            if rig is None or used >= 10 or dirty:
+                rig = Rig(Device)
+                used = 0
+                reqs.append({"op": "reset", "cfg": rig.cfg()})
+            past = []
         used += 1
         if label.startswith("helper/"):
             rig.dev.app.do_ConfirmedPrivateTransferRequest = faulty_helper(rig.dev.app)
@@ -436,49 +504,113 @@ def shard(ctx, spec):
         finally:
             rig.dev.app.__dict__.pop("do_ConfirmedPrivateTransferRequest", None)
         first = len(reqs)
-        for fr, per in zip(frames, rec["per"]):
-            ans = [dict(e) for e in per["entries"] if e["k"] not in ("silent", "other")]
-            for a in ans:
-                a.pop("own", None)
-            reqs.append({"op": "recv", "src": PEER_HEX, "hex": fr.hex(), "app": ans})
-        reqs.append({"op": "quiesce"})
-        reqs.append({"op": "dcc", "d": rec["dcc"]})
-        plan.append((frames, label, pos, rec, first))
-        if rec["dcc"] != 0 or rec["iam"] or rec["residue"]["client"] or rec["residue"]["server"]:
-            rig = None
-    replies = drv.ask(reqs)
-    for frames, label, pos, rec, first in plan:
-        judge(ctx, stream, frames, label, pos, rec, replies[first:first + len(frames) + 1])
+        reqs.extend(model_ops(frames, rec))
+        plan.append((frames, label, pos, rec, first, list(past)))
+        past.append(frames)
+        dirty = bool(rec["dcc"] != 0 or rec["iam"] or rec["residue"]["client"] or rec["residue"]["server"])
+    replies = core.Driver("drv_c10").ask(reqs) if model_ok else None
+    for frames, label, pos, rec, first, hist in plan:
+        judge(ctx, stream, frames, label, pos, rec,
+              replies[first:first + len(frames) + 1] if replies is not None else None, hist)
 
 
-def judge(ctx, stream, frames, label, pos, rec, mrep):
-    case = {"stream": "model/" + stream, "template": label, "pos": pos, "frames": [f.hex() for f in frames]}
+def model_ops(frames, rec):
+    ops = []
+    for (src, fr), per in zip(frames, rec["per"]):
+        ans = [dict(e) for e in per["entries"] if e["k"] not in ("silent", "other")]
+        for a in ans:
+            a.pop("own", None)
+        ops.append({"op": "recv", "src": "%02x" % src, "hex": fr.hex(), "app": ans})
+    ops.append({"op": "quiesce"})
+    ops.append({"op": "dcc", "d": rec["dcc"]})
+    return ops
+
+
+COUNTED = ("valid", "helper", "burst", "dup", "followup")        # every request of the batch completes: n requests, n replies
+ANSWERED = COUNTED + ("npci", "segresp", "hostile")               # at least one reply per invoke id
+
+
+def classify_routed(f):
+    """(invoke id, snet, sadr) of an unsegmented confirmed request delivered by a router
+    (SNET/SADR present, no DNET, application message, intact fixed header), else None"""
+    if len(f) < 5 or f[0] != 1 or (f[1] & 0xA8) != 0x08:
+        return None
+    slen = f[4]
+    snet = (f[2] << 8) | f[3]
+    if slen == 0 or snet == 0xFFFF or len(f) < 5 + slen + 4:
+        return None
+    a = f[5 + slen:]
+    if a[0] >> 4 != 0 or a[0] & 0x08:
+        return None
+    return (a[2], snet, bytes(f[5:5 + slen]))
+
+
+def oracle(ctx, stream, case, frames, label, rec):
+    """the property evaluated on what the REAL device did with one batch (no model involved)"""
+    if stream not in ("shapes", "history", "replay"):
+        return
+    group = label.split("/")[0]
+    if not rec["terminated"]:
+        ctx.fail("nontermination", case, "device still busy after the loop limit")
+    if rec["residue"]["client"] or rec["residue"]["server"] or rec["residue"]["ssm_timers"]:
+        ctx.fail("residue-transaction", case, "leftover after quiescence: %r" % (rec["residue"],), errors=rec["errors"])
+    allout = [o for per in rec["per"] for o in per["out"]] + rec["fin"]["out"]
+    if group in ANSWERED and label not in ("segresp/dup-request",):
+        hs = [C.decode_apdu_header(bytes.fromhex(o)) for (_d, o) in allout]
+        answered = collections.Counter(h.get("invoke") for h in hs if h and h.get("type") in C.REPLY_TYPES
+                                       and not (h.get("seg") and h.get("seq")))
+        owed = collections.Counter(inv for (kind, inv) in (C.classify(f) for (_s, f) in frames) if kind == "confirmed")
+        for inv, n in sorted(owed.items()):
+            # each request completes before the next one of the same instant is looked at
+            if answered[inv] < (n if group in COUNTED else 1):
+                ctx.fail("silence", case, "%d confirmed request(s) with invoke %d got %d replies" % (n, inv, answered[inv]),
+                         errors=rec["errors"])
+    if group == "routed":
+        # the reply to a routed request goes, at link level, to the station that delivered THAT request,
+        # with DNET/DADR = the request's SNET/SADR, exactly once
+        for (src, f) in frames:
+            r = classify_routed(f)
+            if r is None:
+                continue
+            inv, snet, sadr = r
+            hits, segmented = [], False
+            for (dst, o) in allout:
+                raw = bytes.fromhex(o)
+                h = C.decode_apdu_header(raw)
+                if h and h.get("type") in C.REPLY_TYPES and h.get("invoke") == inv and C.reply_route(raw) == (snet, sadr):
+                    hits.append(dst)
+                    segmented = segmented or bool(h.get("seg"))
+            want = ["%02x" % src]
+            same = [1 for (s2, f2) in frames if classify_routed(f2) == r]
+            if segmented:
+                hits = sorted(set(hits))          # segments and their retransmissions: all to that station
+            if len(same) == 1 and hits != want:
+                ctx.fail("routed-reply", case, "routed request (invoke %d, network %d via station %d) was answered to %r" % (
+                    inv, snet, src, hits), errors=rec["errors"])
+    if group == "valid":
+        # a request produced by the library's own encoder must reach the application
+        e = rec["per"][0]["entries"]
+        if e and e[0].get("own"):
+            ctx.fail("valid-request-rejected", case, "the stack itself answered a valid %s request with %r" % (label[6:], e[0]))
+
+
+def judge(ctx, stream, frames, label, pos, rec, mrep, hist=()):
+    case = {"stream": "model/" + stream, "template": label, "pos": pos,
+            "frames": [[src, f.hex()] for (src, f) in frames]}
+    if hist:
+        case["history"] = [[[src, f.hex()] for (src, f) in step] for step in hist]
+    oracle(ctx, stream, case, frames, label, rec)
+    if mrep is None:
+        ctx.count("impl-only/" + stream, label)
+        return
     for r in mrep:
         if r.get("r") != "ok":
             raise core.Infra("model driver: %r" % (r,))
-    # property oracle on the real device for the constructed histories (the c10 streams judge their own)
-    if stream in ("shapes", "history"):
-        if not rec["terminated"]:
-            ctx.fail("nontermination", case, "device still busy after the loop limit")
-        if rec["residue"]["client"] or rec["residue"]["server"] or rec["residue"]["ssm_timers"]:
-            ctx.fail("residue-transaction", case, "leftover after quiescence: %r" % (rec["residue"],), errors=rec["errors"])
-        if label.split("/")[0] in ("valid", "helper", "burst", "dup", "npci", "segresp") and label not in ("segresp/dup-request",):
-            allout = [o for per in rec["per"] for o in per["out"]] + rec["fin"]["out"]
-            hs = [C.decode_apdu_header(bytes.fromhex(o)) for (_d, o) in allout]
-            answered = collections.Counter(h.get("invoke") for h in hs if h and h.get("type") in C.REPLY_TYPES
-                                           and not (h.get("seg") and h.get("seq")))
-            owed = collections.Counter(inv for (kind, inv) in map(C.classify, frames) if kind == "confirmed")
-            for inv, n in sorted(owed.items()):
-                # each request completes before the next one of the same instant is looked at
-                if answered[inv] < (n if label.split("/")[0] in ("valid", "helper", "burst", "dup") else 1):
-                    ctx.fail("silence", case, "%d confirmed request(s) with invoke %d got %d replies" % (n, inv, answered[inv]),
-                             errors=rec["errors"])
     if rec["iam"] or rec["delivered"] != len(frames):
         ctx.count("model/skipped", "iam" if rec["iam"] else "undelivered")
         return
-    asked_before = 0
     impl_view, model_view = [], []
-    for i, (fr, per, m) in enumerate(zip(frames, rec["per"], mrep)):
+    for i, ((src, fr), per, m) in enumerate(zip(frames, rec["per"], mrep)):
         asked_m = m["asked"]
         ents = per["entries"]
         if len(ents) > 1:
@@ -489,10 +621,15 @@ def judge(ctx, stream, frames, label, pos, rec, mrep):
             asked_i = 0
         elif e["k"] in ("silent", "other"):
             asked_i = "application silent"
-        elif e.get("own"):
-            asked_i = asked_m          # the real decoder refused what the model's decoder may accept (leaf level)
+        elif e.get("own") and e["k"] == "reject" and e.get("r") == 0:
+            # RejectOther from the ASAP's catch-all: the real decoder tripped over a primitive value (e.g. a
+            # character string ill-formed in its announced character set) that the model's decoder, which
+            # checks leaves for tag and length only (C03), accepts: taken as the application's answer
+            asked_i = asked_m
             if asked_m:
                 ctx.count("model/leaf-reject", (label.split("/")[0], e.get("r")))
+        elif e.get("own"):
+            asked_i = 0
         else:
             asked_i = 1
         kind, inv = C.classify(fr)
@@ -519,11 +656,6 @@ def judge(ctx, stream, frames, label, pos, rec, mrep):
         ctx.disagree("model/" + stream, case, {"at": k, "impl": impl_view[k], "errors": rec["errors"]},
                      {"at": k, "model": model_view[k]})
         reference_oracle(ctx, case, frames, rec, mrep)
-    if label.startswith("valid/"):
-        # a request produced by the library's own encoder must reach the application
-        e = rec["per"][0]["entries"]
-        if e and e[0].get("own"):
-            ctx.fail("valid-request-rejected", case, "the stack itself answered a valid %s request with %r" % (label[6:], e[0]))
 
 
 def reference_oracle(ctx, case, frames, rec, mrep):
@@ -532,7 +664,7 @@ def reference_oracle(ctx, case, frames, rec, mrep):
     out_all = [o for per in rec["per"] for o in per["out"]] + rec["fin"]["out"]
     hdrs = [C.decode_apdu_header(bytes.fromhex(o)) for (_d, o) in out_all]
     hdrs = [h for h in hdrs if h and h.get("type") in C.REPLY_TYPES]
-    for i, (fr, per, m) in enumerate(zip(frames, rec["per"], mrep)):
+    for i, ((_src, fr), per, m) in enumerate(zip(frames, rec["per"], mrep)):
         kind, inv = C.classify(fr)
         if kind != "confirmed":
             continue
@@ -546,9 +678,6 @@ def reference_oracle(ctx, case, frames, rec, mrep):
             ctx.fail("malformed-acknowledged", case,
                      "request (invoke %d) whose parameters do not decode (model: %s reason %d) was answered with %s" % (
                          inv, C.REPLY_TYPES[mh[0]["type"]], mh[0].get("reason", -1), C.REPLY_TYPES[mine[0]["type"]]))
-        elif mh and m["asked"] == 1 and per["entries"] and per["entries"][0].get("own") and mine and mine[0]["type"] in (6, 7) \
-                and not mh[0]["type"] in (6, 7):
-            ctx.fail("wellformed-refused", case, "request (invoke %d) was refused by the stack (%r)" % (inv, per["entries"][0]))
     if rec["residue"]["client"] or rec["residue"]["server"] or rec["residue"]["ssm_timers"]:
         ctx.fail("residue-transaction", case, "leftover after quiescence: %r" % (rec["residue"],), errors=rec["errors"])
     if not rec["terminated"]:
@@ -581,38 +710,42 @@ def corpus_batches():
     if os.path.isdir(d):
         for fn in sorted(os.listdir(d)):
             rec = json.load(open(os.path.join(d, fn)))
-            out.append(([bytes.fromhex(h) for h in rec["frames"]], "corpus/" + fn, None))
+            out.append((unhex(rec["frames"]), "corpus/" + fn, None))
     return out
 
 
 def specs(ctx):
-    s = [("corpus", ["all"])]
-    s += P.specs(ctx)
-    s += [("shapes", [str(k), "4"]) for k in range(4)]
-    s += [("history", ["h%d" % k]) for k in range(4 if ctx.quick else 16)]
+    ok = bool(getattr(ctx, "model_ok", False))
+    s = [("corpus", ["all"], ok)]
+    s += [tuple(x) + (ok,) for x in P.specs(ctx)]
+    s += [("shapes", [str(k), "4"], ok) for k in range(4)]
+    s += [("history", ["h%d" % k], ok) for k in range(4 if ctx.quick else 16)]
     return s
 
 
 def run(ctx):
+    """with the model driver: lockstep + oracles; without it (broken build): the oracles alone"""
     core.run_shards(ctx, "harness.c10_model", "shard", specs(ctx))
 
 
-def replay_frames(ctx, frames, label="replay", stream="replay"):
-    """one batch on a fresh device: model-vs-implementation comparison and (for the batches of the
-    model-side streams) their property oracle (used by c10.replay)"""
+def unhex(frames):
+    return [(f[0], bytes.fromhex(f[1])) if isinstance(f, (list, tuple)) else (C.PEER, bytes.fromhex(f)) for f in frames]
+
+
+def replay_frames(ctx, frames, label="replay", stream="replay", history=()):
+    """one batch (after the earlier steps of its scenario) on a fresh device: the property oracle and the
+    model-vs-implementation comparison (used by c10.replay)"""
     Device = C.build()
     rig = Rig(Device)
+    reqs = [{"op": "reset", "cfg": rig.cfg()}]
+    for step in history:
+        rec0 = rig.batch(step)
+        reqs.extend(model_ops(step, rec0))
     if label.startswith("helper/"):
         rig.dev.app.do_ConfirmedPrivateTransferRequest = faulty_helper(rig.dev.app)
     rec = rig.batch(frames)
-    if not getattr(ctx, "model_ok", False):
-        raise core.Infra("model driver not built: cannot replay a model-side case")
-    reqs = [{"op": "reset", "cfg": rig.cfg()}]
-    for fr, per in zip(frames, rec["per"]):
-        ans = [dict(e) for e in per["entries"] if e["k"] not in ("silent", "other")]
-        for a in ans:
-            a.pop("own", None)
-        reqs.append({"op": "recv", "src": PEER_HEX, "hex": fr.hex(), "app": ans})
-    reqs.append({"op": "quiesce"})
-    replies = core.Driver("drv_c10").ask(reqs)
-    judge(ctx, stream, frames, label, None, rec, replies[1:])
+    first = len(reqs)
+    reqs.extend(model_ops(frames, rec))
+    replies = core.Driver("drv_c10").ask(reqs) if getattr(ctx, "model_ok", False) else None
+    judge(ctx, stream, frames, label, None, rec,
+          replies[first:first + len(frames) + 1] if replies is not None else None, list(history))
